@@ -3,6 +3,7 @@ package main
 import (
 	"fmt"
 	"go/ast"
+	"go/token"
 	"go/types"
 	"strings"
 )
@@ -37,6 +38,9 @@ func propC08(c *Ctx) string {
 	// saved under each id, from the store of the direction asked for
 	c18Store(c)
 	c18Dir(c)
+	// a connection that dies during the handshake must still be terminated in the backend, or the stored session keeps
+	// a dead owner and offline messages are handed to it
+	c12SetupState(c, v, "C08")
 	c.NotDecide("every failure position at runtime (crash points), repeated failures during resend",
 		"that a custom Session really persists what SavePacket was given", "queue capacity limits (messages beyond SessionQueueSize are dropped by design)")
 	c.Assume("instance-insensitive field keys", "Session interface contracts as documented in broker/client.go")
@@ -657,7 +661,7 @@ func c08QueueKeep(c *Ctx, v *vocab) {
 }
 
 func c08Offline(c *Ctx, v *vocab) {
-	r := c.Rule("C08/OFFLINE", "TRACE", "MemoryBackend.Publish: for QoS>0 every session-queue send goes to the stored queue; the send for an offline stored session (activeClient == nil) is non-blocking", 2)
+	r := c.Rule("C08/OFFLINE", "TRACE", "MemoryBackend.Publish: for QoS>0 every session-queue send goes to the stored queue; the send for an offline stored session (activeClient == nil) is non-blocking; no hand-over select escapes on the publisher's own state", 3)
 	fi := c.mustFunc(r, "broker.(*MemoryBackend).Publish")
 	if fi == nil {
 		return
@@ -732,4 +736,46 @@ func c08Offline(c *Ctx, v *vocab) {
 		}
 	}
 	r.Check(fi.Name+"@activeClient=nil:non-blocking", bad == nil && n > 0, fi.Decl.Pos(), len(in.Traces), "a publish must never block on the queue of an offline session", c.witness(bad)...)
+	// hand-over to an online receiver: the wait for room may be given up when the *receiver* goes away, never
+	// because of the state of the publisher — a will is always published by a client that is already closing, so
+	// an escape on the publisher's Closing()/Closed() turns "wait for room" into "skip if busy" for every will
+	pub := fi.Obj.Type().(*types.Signature).Params().At(0)
+	h := &Interp{P: c.P, Info: info}
+	seen := map[*ast.SelectStmt]bool{}
+	var badSel *ast.SelectStmt
+	ns := 0
+	all := c.traces(fi)
+	for _, t := range all.Traces {
+		for _, e := range t.Ev {
+			if !c.isQueueSend(fi)(e) || e.Select == nil || seen[e.Select] {
+				continue
+			}
+			seen[e.Select] = true
+			ns++
+			for _, cl := range e.Select.Body.List {
+				cc, _ := cl.(*ast.CommClause)
+				if cc == nil || cc.Comm == nil {
+					continue
+				}
+				ast.Inspect(cc.Comm, func(m ast.Node) bool {
+					u, ok := m.(*ast.UnaryExpr)
+					if !ok || u.Op != token.ARROW {
+						return true
+					}
+					ast.Inspect(u.X, func(k ast.Node) bool {
+						if id, ok := k.(*ast.Ident); ok && h.objOf(id) == types.Object(pub) {
+							badSel = e.Select
+						}
+						return true
+					})
+					return true
+				})
+			}
+		}
+	}
+	pos := fi.Decl.Pos()
+	if badSel != nil {
+		pos = badSel.Pos()
+	}
+	r.Check(fi.Name+":hand-over waits do not depend on the publisher", badSel == nil && ns > 0, pos, ns, "a select that hands the message to a session queue has an escape on the publishing client: a will (always published by a closing client) is dropped whenever the receiver's queue is momentarily full")
 }
